@@ -32,7 +32,7 @@ func init() {
 	core.Register(&core.Property{
 		ID:    "C16",
 		Level: "fault_enumeration",
-		Rule: "universe = runs of the real binary over 1..3 target files (kinds: two matching, non-matching, unparseable; every kind at every position) with one fault per execution, injected at the system-call boundary: (a) RLIMIT_FSIZE = n for every n from 0 to the size of the largest output (every length at which a write can be cut); (b) SIGKILL delivered on entry of the k-th call, for every k, of each of openat, read, write, close, renameat/renameat2/rename, unlinkat, fchmod/fchmodat/chmod, ftruncate, fsync, newfstatat (strace inject, per call type until k exceeds the number of calls); (b') after every killed execution a fault-free run with a second, shorter patch: the result must be that patch applied to what the killed run left (no leftovers of temporaries); (c) the same calls failing with ENOSPC, EIO, EACCES, EROFS; (c') pairs of faults: each of those calls failing with ENOSPC at every k while RLIMIT_FSIZE cuts every write at 0, 1, half and all-but-one byte of the largest output (state invariant only); (d) logical failures (unparseable source, rewrite error, unparseable result, missing path, missing / unreadable-as-directory / malformed patch, missing patches-file) at every position. " +
+		Rule: "universe = runs of the real binary over 1..3 target files (kinds: two matching, non-matching, unparseable; every kind at every position) with one fault per execution, injected at the system-call boundary: (a) RLIMIT_FSIZE = n for every n from 0 to the size of the largest output (every length at which a write can be cut); (b) SIGKILL delivered on entry of the k-th call, for every k, of each of openat, read, write, close, renameat/renameat2/rename, unlinkat, fchmod/fchmodat/chmod, ftruncate, fsync, newfstatat (strace inject, per call type until k exceeds the number of calls); (b') after every killed execution a fault-free run with a second, shorter patch: the result must be that patch applied to what the killed run left (no leftovers of temporaries); (c) the same calls failing with ENOSPC, EIO, EACCES, EROFS; (c') pairs of faults: each of those calls failing with ENOSPC at every k while RLIMIT_FSIZE cuts every write at 0, 1, half and all-but-one byte of the largest output (state invariant only); (d') 255, 256, 257 and 512 failing files in one run; (d) logical failures (unparseable source, an unparseable file under a patch whose every change names an import, rewrite error, unparseable result, missing path, missing / unreadable-as-directory / malformed patch, missing patches-file) at every position. " +
 			"Oracle: after every execution every .go file equals its original or its complete patched bytes from a fault-free reference run; exit 0 implies every file is in its fault-free final state; a failed action on a path of the run implies non-zero exit and a diagnostic naming a path and the OS cause; per-file logical failures leave the other files' results unchanged. The strace logs are read back: every filesystem action of the reference run on the scratch tree must have been the fault point of at least one execution. non-trivial = an execution in which the fault hit an action on the scratch tree",
 		Assumptions: []string{
 			"faults are injected with strace 6.1 (inject=...:signal=SIGKILL / :error=E:when=k) and prlimit; GOMAXPROCS=1 keeps the per-thread call numbering stable; coverage is verified from the logs rather than assumed",
@@ -100,7 +100,11 @@ func c16Gen(tier string, emit func(any)) {
 			}
 		}
 	}
-	for _, l := range []string{"unparseable-source", "rewrite-error", "unparseable-result", "missing-path", "missing-path-abs", "missing-path-abs-slash", "missing-path-abs-dots", "missing-path-abs-dotdot", "missing-dir-rel-dots", "missing-patch", "patch-is-directory", "malformed-patch", "missing-patches-file", "patches-file-names-missing-patch", "patches-file-unterminated-names-missing-patch", "patches-file-unterminated-names-malformed-patch", "name-too-long-for-temporary", "printer-panic", "engine-panic-after-applied-change",
+	// the number of failing files does not matter (an exit status is one byte)
+	for _, n := range []int{255, 256, 257, 512} {
+		emit(&C16Case{Family: "many-failures", Position: n})
+	}
+	for _, l := range []string{"unparseable-source", "rewrite-error", "unparseable-result", "missing-path", "missing-path-abs", "missing-path-abs-slash", "missing-path-abs-dots", "missing-path-abs-dotdot", "missing-dir-rel-dots", "missing-patch", "patch-is-directory", "malformed-patch", "missing-patches-file", "patches-file-names-missing-patch", "patches-file-unterminated-names-missing-patch", "patches-file-unterminated-names-malformed-patch", "name-too-long-for-temporary", "printer-panic", "engine-panic-after-applied-change", "unparseable-source-under-import-guard",
 		"rewrite-error-import-first", "rewrite-error-import-middle", "rewrite-error-import-last",
 		"broken-change:unknown-type", "broken-change:missing-type", "broken-change:duplicate-metavariable", "broken-change:body-not-go",
 		"broken-change:two-declarations", "broken-change:two-declarations-after-import", "broken-change:two-declarations-after-two-imports",
@@ -344,6 +348,29 @@ func c16Run(env *core.Env, ci any) core.Outcome {
 	c := ci.(*C16Case)
 	if c.Family == "logical" {
 		return c16Logical(env, c)
+	}
+	if c.Family == "many-failures" {
+		// Position files that do not parse (and one that does): the run fails, whatever their number
+		n := c.Position
+		o := core.Outcome{Class: "many-failures", Nontrivial: true, Transitions: 1}
+		root := filepath.Join(env.Scratch, "c16m")
+		tree := map[string]string{"p.patch": c16Patch, "t/good.go": "package p\n\nfunc g() {\n\tfoo(1)\n}\n"}
+		for i := 0; i < n; i++ {
+			tree[fmt.Sprintf("t/bad%03d.go", i)] = "package p\n\nfunc broken( {\n"
+		}
+		if err := drive.FreshDir(root); err != nil {
+			panic(err)
+		}
+		defer os.RemoveAll(root)
+		if err := drive.WriteTree(root, tree); err != nil {
+			panic(err)
+		}
+		r := c16Exec(env, root, []string{"good.go"}, nil, "", []string{"-p", filepath.Join(root, "p.patch"), "."})
+		if r.killed || r.exit == 0 || !strings.Contains(r.stderr, fmt.Sprintf("bad%03d.go", n-1)) {
+			o.FindingKey = "C16:failure-not-reported/many-failures"
+			o.Violation = fmt.Sprintf("[%d unparseable files in one run] exit status %d (killed %v); the last of them named on stderr: %v", n, r.exit, r.killed, strings.Contains(r.stderr, fmt.Sprintf("bad%03d.go", n-1)))
+		}
+		return o
 	}
 	root, names, orig := c16Setup(env, c.Kinds)
 	defer os.RemoveAll(root)
@@ -642,6 +669,10 @@ func c16Logical(env *core.Env, c *C16Case) core.Outcome {
 				content = "package p\n\nfunc broken( {\n"
 				failing, perFile = name, true
 				wantInStderr = []string{name}
+			case "unparseable-source-under-import-guard": // every change of the run names an import; the broken file does not mention it
+				content = "package p\n\nfunc broken( {\n"
+				failing, perFile = name, true
+				wantInStderr = []string{name}
 			case "rewrite-error":
 				content = "package p\n\nfunc r() {\n\tbaz(1)\n\tfoo(2)\n}\n"
 				failing, perFile = name, true
@@ -676,6 +707,14 @@ func c16Logical(env *core.Env, c *C16Case) core.Outcome {
 		names = append(names, name)
 	}
 	switch c.Logical {
+	case "unparseable-source-under-import-guard":
+		patchText = "@@\nvar x expression\n@@\n import \"x/lib\"\n\n-foo(x)\n+barbarbar(x, x)\n"
+		for n := range tree {
+			if n != "t/"+failing {
+				tree[n] = strings.Replace(tree[n], "package p\n", "package p\n\nimport \"x/lib\"\n\nvar _ = lib.V\n", 1)
+				orig[strings.TrimPrefix(n, "t/")] = tree[n]
+			}
+		}
 	case "rewrite-error":
 		patchText = "@@\nvar x, y expression\n@@\n-baz(x)\n+qux(x, y)\n\n" + c16Patch
 	case "unparseable-result":
